@@ -37,8 +37,8 @@ TMP = tempfile.mkdtemp(prefix="c09_")
 _counter = [0]
 
 T_UNITWS = "C09-unit-whitespace"     # known finding: units with white space cannot be stored
-T_TRAILER = "C09-short-block-consumes-trailer"   # finding candidate: a short binary block is accepted when
-                                     # block + trailer hold the announced byte count and only white space remains
+# (repaired in /repo ec89bf87: a short binary block was accepted when block + trailer held the announced byte
+#  count and only white space remained; the reader now requires the end-of-data marker after the block)
 T_BRACES = "C09-label-braces"        # optional stream (VERIF_C09_BRACES=1): the reader strips { and }
 
 # (the stale side-car defect - an older side-car read back as the subregions of a field saved without any -
@@ -168,7 +168,7 @@ def ovf_parse(b):
     out["complete"] = k >= count
     rest = b[pos + k * size:].lstrip().lower()
     marker = b"# end: data"
-    out["tail_ok"] = rest.startswith(marker) or marker.startswith(rest)
+    out["tail_ok"] = rest.startswith(marker)        # the block must be followed by the end-of-data marker
     out["data_end"] = pos + count * size
     return out
 
@@ -1385,12 +1385,18 @@ def damage(blob, fault):
     ds = info["data_start"]
     de = info["data_end"]
     t = fault["type"]
+    def cut(at):
+        # damaged unless the complete block is still followed by the end-of-data marker; then the cut only
+        # removed trailer text and either answer is admissible (accepted => the right content)
+        if at < de:
+            return True
+        return None if blob[de:at].lstrip().lower().startswith(b"# end: data") else True
     if t == "trunc":
         at = fault["at"]
-        return blob[:at], (True if at < de else None)
+        return blob[:at], cut(at)
     if t == "trunc_data":
         at = ds + size + int(fault["frac"] * (de - ds - size))
-        return blob[:at], (True if at < de else None)
+        return blob[:at], cut(at)
     if t == "flip":
         bit = fault["bit"]
         bb = bytearray(blob)
@@ -1506,9 +1512,6 @@ def run_read(case):
         except ValueError:
             coq = None
     tags = []
-    if must_reject is True and st == "ok" and a is not None and a["rep"] != "txt" and a.get("complete") \
-            and a["tail_ok"] and blob[a["data_end"]:].strip() == b"":
-        tags.append(T_TRAILER)
     ftype = "none" if not fault else fault["type"]
     region = ""
     if fault and fault["type"] == "trunc" and a is not None:
